@@ -1,8 +1,42 @@
-use trippy_packet::ipv6::Ipv6Packet;
+//! `tvh <component> --seed N --tier quick|thorough --out DIR [--corpus FILE]`
+//! runs the real trippy code on generated inputs and writes `<component>.ops` (requests for the
+//! Lean driver), `<component>.impl` (canonicalised answers of the implementation),
+//! `<component>.oracle` (implementation-vs-oracle failures) and `<component>.stats`.
+use tvh::util::{install_panic_hook, Rng};
+
 fn main() {
-    let mut buf = [0u8; 40];
-    let mut p = Ipv6Packet::new(&mut buf).unwrap();
-    p.set_traffic_class(0);
-    p.set_flow_label(0x00F0_0000);
-    println!("traffic_class after set_flow_label(0x00F00000) = {:#x} flow={:#x}", p.get_traffic_class(), p.get_flow_label());
+    let args: Vec<String> = std::env::args().collect();
+    if args.len() < 2 {
+        eprintln!("usage: tvh <component> --seed N --tier quick|thorough --out DIR [--corpus FILE]");
+        std::process::exit(2);
+    }
+    let comp = args[1].clone();
+    let mut seed = 1u64;
+    let mut thorough = false;
+    let mut out = String::from(".");
+    let mut corpus: Vec<String> = vec![];
+    let mut i = 2;
+    while i < args.len() {
+        match args[i].as_str() {
+            "--seed" => { seed = args[i + 1].parse().unwrap_or(1); i += 1; }
+            "--tier" => { thorough = args[i + 1] == "thorough"; i += 1; }
+            "--out" => { out = args[i + 1].clone(); i += 1; }
+            "--corpus" => {
+                if let Ok(s) = std::fs::read_to_string(&args[i + 1]) {
+                    corpus.extend(s.lines().filter(|l| !l.is_empty() && !l.starts_with('#')).map(String::from));
+                }
+                i += 1;
+            }
+            _ => {}
+        }
+        i += 1;
+    }
+    install_panic_hook();
+    let mut rng = Rng::new(seed);
+    let run = match comp.as_str() {
+        "packet" => tvh::packet::run(&mut rng, thorough, &corpus),
+        _ => { eprintln!("unknown component {comp}"); std::process::exit(2); }
+    };
+    run.write(&out, &comp).expect("write outputs");
+    println!("{comp}: {} ops, {} oracle failures", run.ops.len(), run.oracle_failures.len());
 }
